@@ -507,7 +507,7 @@ def r13_7(ctx):
     ctx.check(ok, "Stage._set_transcribed writes the master's flag", detail="invalidation recorded on the wrong object (sub-stage edits ignored)",
               expected="self.master._var_is_transcribed = val", found="; ".join(ast.unparse(w) for w in ws), fi=f)
     if ws:
-        gs = sorted((ast.unparse(t), p) for t, p in sc.guard_conjuncts(ws[0]))
+        gs = sorted((ast.unparse(t), p) for t, p in sc.path_guards(ws[0]))
         ctx.check(gs == [("self._is_original", True), ("self.master", True)], "Stage._set_transcribed acts for every original stage attached to an OCP", detail="invalidation skipped",
                   expected="if self.master: if self._is_original:", found=gs, fi=f)
     g = prog.own_method("Stage", "_is_transcribed")
